@@ -158,7 +158,7 @@ def body_cache_control(I, X, ops=("max_age", "private")):
     return ok, {"trace": trace, "header": hdr}
 
 
-WA_OPS = ["set-type", "set-token", "set-param", "del-param", "set-param-none", "assign-new", "assign-none"]
+WA_OPS = ["set-type", "set-token", "set-param", "del-param", "set-param-none", "assign-new", "assign-none", "assign-params", "params-dict-set"]
 
 
 def body_www_authenticate(I, X, ops=("set-param", "set-type"), start="params"):
@@ -202,6 +202,15 @@ def body_www_authenticate(I, X, ops=("set-param", "set-type"), start="params"):
             model["token"] = pconcat("k", tk, "z")
         elif op == "set-param":
             I.call(w.__setitem__, ("qop", x))
+            model["params"]["qop"] = x
+        elif op == "assign-params":
+            # the whole parameter dict is replaced ...
+            I.setattr(w, "parameters", {"realm": x, "nonce": "m"})
+            model["params"] = {"realm": x, "nonce": "m"}
+        elif op == "params-dict-set":
+            # ... and the dict handed out by .parameters is itself a live view
+            d = I.getattr(w, "parameters")
+            I.call(d.__setitem__, ("qop", x))
             model["params"]["qop"] = x
         elif op == "del-param":
             I.call(w.__delitem__, ("realm",))
